@@ -1796,12 +1796,19 @@ class FileBuilder:
             if self._try_to_reuse_cached_file():
                 return operation.return_value
 
-            if (os.path.isfile(filename) and
-                    self._backups.back_up_and_remove(filename)):
-                logger.info(
-                    'Moved {:s} to a temporary directory, in preparation for '
-                    'rebuilding the file'.format(filename))
+            # Claim the file before moving the old file away. If another
+            # thread is (incorrectly) building the same file, then this raises
+            # before we touch that thread's output file.
             self._new_cache.start_building_file(filename)
+            try:
+                if (os.path.isfile(filename) and
+                        self._backups.back_up_and_remove(filename)):
+                    logger.info(
+                        'Moved {:s} to a temporary directory, in preparation '
+                        'for rebuilding the file'.format(filename))
+            except Exception:
+                self._new_cache.cancel_building_file(filename)
+                raise
         except Exception:
             self._build_dirs.error_building_file(filename)
             raise
